@@ -49,15 +49,18 @@ Proofs/EmitProofs.vos Proofs/EmitProofs.vok Proofs/EmitProofs.required_vos: Proo
 Properties/C15.vo Properties/C15.glob Properties/C15.v.beautified Properties/C15.required_vo: Properties/C15.v Compiler/Compile.vo Proofs/EmitProofs.vo
 Properties/C15.vio: Properties/C15.v Compiler/Compile.vio Proofs/EmitProofs.vio
 Properties/C15.vos Properties/C15.vok Properties/C15.required_vos: Properties/C15.v Compiler/Compile.vos Proofs/EmitProofs.vos
+Proofs/PassThroughProofs.vo Proofs/PassThroughProofs.glob Proofs/PassThroughProofs.v.beautified Proofs/PassThroughProofs.required_vo: Proofs/PassThroughProofs.v Compiler/Emit.vo Proofs/EmitProofs.vo
+Proofs/PassThroughProofs.vio: Proofs/PassThroughProofs.v Compiler/Emit.vio Proofs/EmitProofs.vio
+Proofs/PassThroughProofs.vos Proofs/PassThroughProofs.vok Proofs/PassThroughProofs.required_vos: Proofs/PassThroughProofs.v Compiler/Emit.vos Proofs/EmitProofs.vos
+Properties/C11.vo Properties/C11.glob Properties/C11.v.beautified Properties/C11.required_vo: Properties/C11.v Compiler/Compile.vo Proofs/EmitProofs.vo Proofs/PassThroughProofs.vo
+Properties/C11.vio: Properties/C11.v Compiler/Compile.vio Proofs/EmitProofs.vio Proofs/PassThroughProofs.vio
+Properties/C11.vos Properties/C11.vok Properties/C11.required_vos: Properties/C11.v Compiler/Compile.vos Proofs/EmitProofs.vos Proofs/PassThroughProofs.vos
 Properties/C16.vo Properties/C16.glob Properties/C16.v.beautified Properties/C16.required_vo: Properties/C16.v Compiler/Compile.vo Proofs/SrcMapProofs.vo
 Properties/C16.vio: Properties/C16.v Compiler/Compile.vio Proofs/SrcMapProofs.vio
 Properties/C16.vos Properties/C16.vok Properties/C16.required_vos: Properties/C16.v Compiler/Compile.vos Proofs/SrcMapProofs.vos
 Properties/C10.vo Properties/C10.glob Properties/C10.v.beautified Properties/C10.required_vo: Properties/C10.v Compiler/Compile.vo
 Properties/C10.vio: Properties/C10.v Compiler/Compile.vio
 Properties/C10.vos Properties/C10.vok Properties/C10.required_vos: Properties/C10.v Compiler/Compile.vos
-Properties/C11.vo Properties/C11.glob Properties/C11.v.beautified Properties/C11.required_vo: Properties/C11.v Compiler/Compile.vo
-Properties/C11.vio: Properties/C11.v Compiler/Compile.vio
-Properties/C11.vos Properties/C11.vok Properties/C11.required_vos: Properties/C11.v Compiler/Compile.vos
 Properties/C01.vo Properties/C01.glob Properties/C01.v.beautified Properties/C01.required_vo: Properties/C01.v Compiler/Compile.vo
 Properties/C01.vio: Properties/C01.v Compiler/Compile.vio
 Properties/C01.vos Properties/C01.vok Properties/C01.required_vos: Properties/C01.v Compiler/Compile.vos
